@@ -18,7 +18,7 @@ SESSION_POLICY = """
 
 
 class Daemon:
-    def __init__(self, policy=SESSION_POLICY, limits=None, extra="", auth=None, servicedirs=(), bus_type="session"):
+    def __init__(self, policy=SESSION_POLICY, limits=None, extra="", auth=None, servicedirs=(), bus_type="session", env_extra=None):
         os.makedirs(RUNROOT, exist_ok=True)
         self.dir = tempfile.mkdtemp(prefix="bus-", dir=RUNROOT)
         for d in (self.dir, RUNROOT):       # clients of other uids must be able to reach the socket
@@ -44,6 +44,10 @@ class Daemon:
         env = dict(os.environ)
         env.update({"ASAN_OPTIONS": "detect_leaks=0:abort_on_error=1", "UBSAN_OPTIONS": "print_stacktrace=1:halt_on_error=1",
                     "DBUS_FATAL_WARNINGS": "0"})
+        if env_extra:
+            env.update(env_extra)
+            if "LD_PRELOAD" in env_extra:
+                env["ASAN_OPTIONS"] += ":verify_asan_link_order=0"
         self.errf = open(os.path.join(self.dir, "stderr"), "w+")
         self.proc = subprocess.Popen([DAEMON, "--config-file=" + self.conf_path, "--nofork", "--nopidfile", "--nosyslog"],
                                      stdout=subprocess.DEVNULL, stderr=self.errf, env=env)
